@@ -295,7 +295,9 @@ def _exc_obs(e):
 
 
 def _seg(x):
-    return int(x[1:]) if isinstance(x, str) else int(x)
+    if isinstance(x, str):  # response keys are "k<N>"; anything else (e.g. __typename) is foreign
+        return int(x[1:]) if x[:1] == "k" and x[1:].isdigit() else 999999
+    return int(x)
 
 
 def _label(lb):
